@@ -91,8 +91,8 @@ Proof.
   destruct (rebuild_hosts c s1) as [[s2 c2] p2]. unfold batch_of. cbn. apply order_deletes_first_ok.
 Qed.
 
-Lemma wve_deletes_first b k out :
-  deletes_first (batch_of out) false = true -> deletes_first (batch_of (with_validation_error b k out)) false = true.
+Lemma wve_deletes_first b k u out :
+  deletes_first (batch_of out) false = true -> deletes_first (batch_of (with_validation_error b k u out)) false = true.
 Proof.
   destruct out as [[s cs] ps]. unfold with_validation_error, batch_of. cbn. intros H. destruct b; [|exact H].
   destruct (attach_error k cs) as [cs'|] eqn:Ha; cbn; [|exact H]. rewrite (attach_error_ops _ _ _ _ Ha). exact H.
@@ -148,15 +148,15 @@ Proof.
 Qed.
 
 Lemma problem_eqb_sym a b : problem_eqb a b = problem_eqb b a.
-Proof. unfold problem_eqb. rewrite (String.eqb_sym (p_reason a)), (String.eqb_sym (p_msg a)). destruct (p_is_error a), (p_is_error b); reflexivity. Qed.
+Proof. unfold problem_eqb. rewrite (String.eqb_sym (p_reason a)), (String.eqb_sym (p_msg a)), (String.eqb_sym (p_uid a)). destruct (p_is_error a), (p_is_error b); reflexivity. Qed.
 
 Lemma problem_eqb_trans a b c : problem_eqb a b = true -> problem_eqb b c = true -> problem_eqb a c = true.
 Proof.
   unfold problem_eqb. intros H1 H2.
-  apply andb_true_iff in H1. destruct H1 as [H1 Hm1]. apply andb_true_iff in H1. destruct H1 as [He1 Hr1].
-  apply andb_true_iff in H2. destruct H2 as [H2 Hm2]. apply andb_true_iff in H2. destruct H2 as [He2 Hr2].
-  apply eqb_prop in He1. apply eqb_prop in He2. apply String.eqb_eq in Hr1, Hr2, Hm1, Hm2.
-  rewrite He1, He2, Hr1, Hr2, Hm1, Hm2, eqb_reflx, !String.eqb_refl. reflexivity.
+  apply andb_true_iff in H1. destruct H1 as [H1 Hu1]. apply andb_true_iff in H1. destruct H1 as [H1 Hm1]. apply andb_true_iff in H1. destruct H1 as [He1 Hr1].
+  apply andb_true_iff in H2. destruct H2 as [H2 Hu2]. apply andb_true_iff in H2. destruct H2 as [H2 Hm2]. apply andb_true_iff in H2. destruct H2 as [He2 Hr2].
+  apply eqb_prop in He1. apply eqb_prop in He2. apply String.eqb_eq in Hr1, Hr2, Hm1, Hm2, Hu1, Hu2.
+  rewrite He1, He2, Hr1, Hr2, Hm1, Hm2, Hu1, Hu2, eqb_reflx, !String.eqb_refl. reflexivity.
 Qed.
 
 Lemma in_problem_delta new old p :
